@@ -311,6 +311,68 @@ pub fn query(hyps: &[Atom], goals: &[Atom], linear: bool, perm_injective: bool, 
             }
         }
     }
+    // Linear algebra over GF(p) on the equational hypotheses (monomials as unknowns):
+    // Gauss-Jordan elimination, then every other polynomial is reduced by the pivot rows. This is
+    // equivalence-preserving (row operations with units of GF(p)); integer-arithmetic solvers
+    // are erratic on systems of congruences with a 64-bit modulus, so it is done here.
+    {
+        let mut rows: Vec<Poly> = vec![];
+        let mut rest: Vec<PAtom> = vec![];
+        let mut contradiction = false;
+        for h in ph.drain(..) {
+            match h {
+                PAtom::Eq(p) => rows.push(p),
+                PAtom::AllEq(ps) => rows.extend(ps),
+                other => rest.push(other),
+            }
+        }
+        let mut pivots: Vec<(Mono, Poly)> = vec![];
+        for mut r in rows {
+            for (m, prow) in &pivots {
+                if let Some(c) = r.t.get(m).copied() {
+                    r = r.sub(&prow.scale(c));
+                }
+            }
+            if r.is_zero() {
+                continue;
+            }
+            if r.as_constant().is_some() {
+                contradiction = true;
+                continue;
+            }
+            let (m, c) = r.t.iter().next_back().map(|(m, c)| (m.clone(), *c)).unwrap();
+            let r = r.scale(crate::poly::invm(c));
+            pivots.push((m, r));
+        }
+        for k in (0..pivots.len()).rev() {
+            let (mk, rk) = pivots[k].clone();
+            for j in 0..k {
+                if let Some(c) = pivots[j].1.t.get(&mk).copied() {
+                    pivots[j].1 = pivots[j].1.sub(&rk.scale(c));
+                }
+            }
+        }
+        let reduce = |q: &mut Poly| {
+            for (m, prow) in &pivots {
+                if let Some(c) = q.t.get(m).copied() {
+                    *q = q.sub(&prow.scale(c));
+                }
+            }
+        };
+        for a in rest.iter_mut().chain(pg.iter_mut()) {
+            for q in a.polys_mut() {
+                reduce(q);
+            }
+        }
+        for q in dens.iter_mut() {
+            reduce(q);
+        }
+        ph = pivots.into_iter().map(|(_, r)| PAtom::Eq(r)).collect();
+        ph.extend(rest);
+        if contradiction {
+            ph.push(PAtom::False);
+        }
+    }
     let hs: Vec<String> = ph.iter().map(|h| e.patom(h)).collect();
     let gs: Vec<String> = pg.iter().map(|g| e.patom(g)).collect();
     let goals_trivial = !goals.is_empty() && gs.iter().all(|g| g == "true" || g == "(and true )");
